@@ -170,6 +170,13 @@ UNITS.append(dict(
 ))
 UNITS[-1]["sources"][0]["rules"] = HEAP_RULES + IDX_RULE
 
+# ---------------- layer C: a heap OWNER in the anchor list -- GridB keeps its two heaps in step with the cells (units of C13, 3x3 window) ----------------
+import importlib.util as _ilu, os as _os
+_s13 = _ilu.spec_from_file_location("c13", _os.path.join(_os.path.dirname(__file__), "C13.py")); _C13 = _ilu.module_from_spec(_s13); _s13.loader.exec_module(_C13)
+for _u in _C13.UNITS:
+    if _u["name"] in ("c13_b_create_add_d2w3", "c13_b_create_remove_d2w3", "c13_b_remove_d2w3", "c13_b_update_d2w3", "c13_b_updateAll_d2w3", "c13_b_tops_d2w3"):
+        _v = copy.deepcopy(_u); _v["name"] = _v["name"].replace("c13_b_", "c11_gridb_"); UNITS.append(_v)
+
 ASSUMPTIONS = [
     "the user's comparison functor is a strict weak order (then a heap of <= N elements behaves exactly as under 8-bit rank keys)",
     "operator new does not throw; event callbacks do not touch the heap",
@@ -181,7 +188,8 @@ TRUSTED = [
     "harness code in units/C11/heap_bounded.c (pre-state builder any_heap, invariant checker check_inv)",
     "CBMC 6.11 + kissat/minisat; for the unbounded sift proofs goto-instrument DFCC + cvc5",
 ]
-NOT_COVERED = ["comparison functors that are not strict weak orders", "exceptions thrown by operator new"]
+NOT_COVERED = ["comparison functors that are not strict weak orders", "exceptions thrown by operator new",
+               "the planner-side heap owners BIT* SearchQueue, AIT* queues, EIT* ReverseQueue (key changes followed by update/rebuild): only GridB is under contract (bounded window)"]
 
 NATIVE = [
     dict(name="c11_native_random_sequences", driver="native/c11_native.cpp",
